@@ -508,3 +508,90 @@ func W1D(sink Sink) {
 		}
 	}
 }
+
+// W1N number-grammar product: sign x integer part x fraction x exponent spelling (144 literals),
+// alone and with a short tail, in every context. The machines inline one copy of the number
+// states per grammar position and pick the hand-written fraction / exponent scanner per
+// copy; a wrong choice in one copy only shows for one spelling in one position (seeded changes
+// C02r3-m1: 0E+1 as a later object member; C07r2-m2; C03r2-m1).
+func W1N(sink Sink) {
+	signs := []string{"", "-"}
+	ints := []string{"0", "7", "12"}
+	fracs := []string{"", ".5", ".25"}
+	exps := []string{"", "e1", "E1", "e+1", "E+1", "e-1", "E-1", "e10"}
+	tails := []string{"", "e5", ".5", "E+1", "5", "-", "+", "e", ".", "0"}
+	c := &h.Case{Family: "W1N"}
+	c.DescFn = func(c *h.Case) string { return fmt.Sprintf("number product #%d in context #%d with tail %q", c.P[0], c.P[1], tails[c.P[2]]) }
+	buf := make([]byte, 0, 128)
+	n := 0
+	for _, sg := range signs {
+		for _, ip := range ints {
+			for _, fr := range fracs {
+				for _, ex := range exps {
+					lit := sg + ip + fr + ex
+					for ci, cx := range Contexts {
+						for ti, tl := range tails {
+							buf = append(buf[:0], cx.Pre...)
+							buf = append(buf, lit...)
+							buf = append(buf, tl...)
+							buf = append(buf, cx.Suf...)
+							c.Input = buf
+							c.Desc = ""
+							c.P = [4]int{n, ci, ti, 0}
+							sink(c)
+						}
+					}
+					n++
+				}
+			}
+		}
+	}
+}
+
+// W1S escape-sequence product: every ordered pair of escape kinds (and pairs with an ordinary
+// byte in between or around) as a string value in every context and as a key in every key
+// position (seeded change C02r3-m2: a backslash right after a complete unicode escape in a
+// LATER array element).
+func W1S(sink Sink) {
+	esc := []string{`\n`, `\"`, `\\`, `\/`, `\b`, `\t`, `\u00e9`, `\u0041`, `\ud83d\ude00`, `\ud800`, `\uDFFF`}
+	c := &h.Case{Family: "W1S"}
+	c.DescFn = func(c *h.Case) string { return fmt.Sprintf("escape pair (%q,%q) shape %d position %d", esc[c.P[0]], esc[c.P[1]], c.P[2], c.P[3]) }
+	buf := make([]byte, 0, 128)
+	keyPos := [][2]string{{"{", ":1}"}, {`{"a":1,`, ":2}"}, {"[{", ":null}]"}, {`[{"a":1,`, ":2}]"}, {`{"k":{`, ":1}}"}, {`{"k":{"a":1,`, ":2}}"}, {`[0,{`, ":1}]"}}
+	for i, e1 := range esc {
+		for j, e2 := range esc {
+			for shape := 0; shape < 3; shape++ {
+				var str string
+				switch shape {
+				case 0:
+					str = `"` + e1 + e2 + `"`
+				case 1:
+					str = `"x` + e1 + e2 + `y"`
+				default:
+					str = `"` + e1 + "q" + e2 + `"`
+				}
+				pos := 0
+				for _, cx := range Contexts {
+					buf = append(buf[:0], cx.Pre...)
+					buf = append(buf, str...)
+					buf = append(buf, cx.Suf...)
+					c.Input = buf
+					c.Desc = ""
+					c.P = [4]int{i, j, shape, pos}
+					pos++
+					sink(c)
+				}
+				for _, kp := range keyPos {
+					buf = append(buf[:0], kp[0]...)
+					buf = append(buf, str...)
+					buf = append(buf, kp[1]...)
+					c.Input = buf
+					c.Desc = ""
+					c.P = [4]int{i, j, shape, pos}
+					pos++
+					sink(c)
+				}
+			}
+		}
+	}
+}
